@@ -26,6 +26,34 @@ def run_config(chk, tier, cfgname):
     typestate.apply(chk, "store-after-upgrade:adoption-paths", "adopt", only=after_upgrade, aspects=("safety",))
     typestate.report_automaton(chk, ["S5", "S6", "S1w"])
     prog.edges()
+    # from a weak pointer to its value only through the gate: every safe exported function that is handed a GcWeak and
+    # can reach an access to the value it points to (GcPtr::as_ref, Gc::as_ref, Gc's Deref), or that returns a Gc, must
+    # go through Context::upgrade (which refuses destructed targets and targets condemned by the running sweep) or
+    # Context::resurrect (finalization). The live flag alone is not the test: a live, weakly marked object ahead of the
+    # sweep cursor is condemned together with everything it holds (seed C05-f: GcWeak::peek).
+    VALUE_ACCESS = ("gc_ptr::GcPtr::as_ref", "gc::Gc::as_ref", "<gc::Gc as core::ops::deref::Deref>::deref",
+                    "<gc::Gc as core::convert::AsRef>::as_ref")
+    GATES = ("context::Context::upgrade", "context::Context::resurrect")
+    n_w = 0
+    for f in prog.f["fns"]:
+        if f["kind"] not in ("Fn", "AssocFn") or f.get("unsafe") or not (f.get("reachable") or f.get("exported")):
+            continue
+        ins = f.get("inputs") or []
+        if not ins or "gc_weak::GcWeak<" not in ins[0]["s"] or ins[0]["s"].startswith("gc::Gc<"):
+            continue
+        n_w += 1
+        reach = prog.reachable_from([f["n"]])
+        touched = [x for x in VALUE_ACCESS if x in reach]
+        gives_gc = "gc::Gc<" in (f.get("output") or {}).get("s", "")
+        gated = any(g in reach for g in GATES)
+        ok = gated or not (touched or gives_gc)
+        chk.inst("weak-to-value-only-through-upgrade", f["n"], ok,
+                 detail="safe `%s` takes a GcWeak and %s without going through Context::upgrade / resurrect: a target that is "
+                        "live but condemned by the running sweep (and what it holds) becomes reachable from safe code" % (
+                            f["n"], ("reaches " + ", ".join(touched)) if touched else "returns a Gc"),
+                 loc="%s:%s" % (f["span"]["f"], f["span"]["l"]), nontrivial=bool(touched or gives_gc),
+                 sample={"fn": f["n"], "value_access": touched, "returns_gc": gives_gc, "gated": gated} if (touched or gives_gc) else None)
+    chk.floor("safe-functions-taking-a-weak-pointer", n_w, 8)
     for q in ("gc_weak::GcWeak::upgrade", "gc_weak::GcWeak::is_dropped", "gc_weak::GcWeak::is_dead",
               "gc_weak::GcWeak::ptr_eq"):
         chk.anchor(q, q in prog.seed_n)
